@@ -31,11 +31,61 @@ fn delta_encode<'a>(ref_bytes: &[u8], pending_input: impl Iterator<Item = &'a Ve
     bytes
 }
 
+/// Upper bound for what one input packet can legitimately decode to: a sender never holds more
+/// than 128 (+1) unacknowledged inputs, each at most `u16::MAX` bytes plus its length prefix.
+const MAX_INPUTS_PER_PACKET: usize = 129;
+const MAX_DECODED_LEN: usize = MAX_INPUTS_PER_PACKET * (2 + u16::MAX as usize);
+
+/// Walks the run-length container without decoding it and returns the length it would decode
+/// to. `data` arrives from the network: `bitfield_rle::decode` indexes past the end of a
+/// truncated varint and allocates whatever length the stream declares, so malformed or
+/// oversized streams have to be rejected before it is called.
+fn validate_rle(data: &[u8]) -> Result<usize, Box<dyn std::error::Error + Send + Sync>> {
+    let mut offset = 0usize;
+    let mut total = 0usize;
+    while offset < data.len() {
+        // varint, at most 9 bytes (63 bits)
+        let mut value = 0u64;
+        let mut shift = 0u32;
+        loop {
+            let byte = *data.get(offset).ok_or("truncated varint")?;
+            offset += 1;
+            if shift > 56 {
+                return Err("varint too long".into());
+            }
+            value |= u64::from(byte & 0x7f) << shift;
+            shift += 7;
+            if byte & 0x80 == 0 {
+                break;
+            }
+        }
+        // bit 0: repeated run (bit 1 selects 0x00 / 0xff) or literal bytes that follow
+        let (len, literal) = if value & 1 == 1 {
+            (value >> 2, false)
+        } else {
+            (value >> 1, true)
+        };
+        let len = usize::try_from(len).map_err(|_| "run length out of range")?;
+        total = total
+            .checked_add(len)
+            .filter(|t| *t <= MAX_DECODED_LEN)
+            .ok_or("decoded length exceeds what an input packet can contain")?;
+        if literal {
+            offset = offset
+                .checked_add(len)
+                .filter(|o| *o <= data.len())
+                .ok_or("literal run exceeds the packet")?;
+        }
+    }
+    Ok(total)
+}
+
 pub(crate) fn decode(
     reference: &[u8],
     data: &[u8],
 ) -> Result<Vec<Vec<u8>>, Box<dyn std::error::Error + Send + Sync>> {
     // decode the RLE encoding first
+    validate_rle(data)?;
     let buf = bitfield_rle::decode(data)?;
 
     // decode the delta-encoding
@@ -51,6 +101,9 @@ fn delta_decode(
     let mut base: Vec<u8> = ref_bytes.to_vec();
 
     while pos < data.len() {
+        if output.len() >= MAX_INPUTS_PER_PACKET {
+            return Err("more inputs than a packet can contain".into());
+        }
         // read the 2-byte length prefix
         if pos + 2 > data.len() {
             return Err("truncated length prefix".into());
